@@ -4,7 +4,8 @@
     The class, per command ([conflicts_declared_ok]): an argument that declares conflicts ([conflicts_with*]) is not global,
     and every entry of its blacklist names an argument or a group of ITS command.  (A global argument with conflicts is
     copied into the subcommands, where its targets need not exist -- clap's configuration check rejects most such trees,
-    and accepts the one that makes the generator panic: finding zsh-global-conflicts-group.)
+    and the one it accepts used to make the generator panic: finding zsh-global-conflicts-group, repaired since; on the
+    BUILT tree [ZshProofs.conflicts_local] / [conflicts_ok_at] cover global arguments.)
 
     Why [build] keeps it: [build] only APPENDS arguments to a command -- the generated [help] / [version] arguments and the
     global arguments of the parent -- and in the class all of these have an empty blacklist; an entry that named an argument
@@ -61,7 +62,7 @@ Proof.
   unfold declares_ok in H. apply orb_true_iff in H. destruct H as [H|H].
   - destruct (a_blacklist a); [reflexivity|discriminate].
   - apply andb_true_iff in H. destruct H as [Hg He]. rewrite forallb_forall in He. apply forallb_forall.
-    intros id Hid. specialize (He id Hid). unfold entry_ok. rewrite Hg. cbn [andb]. exact He.
+    intros id Hid. specialize (He id Hid). unfold entry_ok. exact He.
 Qed.
 
 (** ---- at every node of the tree; kept by [build] ---- *)
